@@ -18,7 +18,7 @@ pub const FLOORS: &[&str] = &[
     "eval:jump_label", "eval:trap_output", "eval:stack", "pc_not_origin", "label_before_pc",
     "label_after_pc", "refused:br", "refused:rti", "refused:halt", "refused:unknown_trap",
     "malformed:missing", "malformed:surplus", "malformed:wrong_kind", "malformed:directive",
-    "malformed:two_instructions", "malformed:undefined_label", "label_out_of_reach", "eval:outside_user_space", "eval:label_below_origin", "eval_after_reset",
+    "malformed:two_instructions", "malformed:undefined_label", "label_out_of_reach", "eval:outside_user_space", "eval:label_below_origin", "eval_after_reset", "refused:stack_extension_off",
 ];
 
 enum Expect {
@@ -180,6 +180,20 @@ fn gen_eval(rng: &mut Rng, img: &RefImage, pc: u16, stack: bool, classes: &mut V
             };
             let jump = matches!(s, Stmt::Rets);
             EvalCmd { text: text_of(&s, rng), expect: Expect::Exec { word: enc(&s), jump, class: "eval:stack" } }
+        }
+        13 => {
+            // the extension mnemonics without the feature, in any letter case: not instructions here
+            let s = match rng.below(4) {
+                0 => Stmt::Push(r(rng)),
+                1 => Stmt::Pop(r(rng)),
+                2 => Stmt::Rets,
+                _ => Stmt::Call(label(rng).0),
+            };
+            let mut t = text_of(&s, rng);
+            if rng.bool() {
+                t = t.to_uppercase();
+            }
+            EvalCmd { text: t, expect: Expect::Refuse("refused:stack_extension_off") }
         }
         14 => {
             let name = if rng.bool() { label(rng).0 } else { "#1".to_string() };
